@@ -354,7 +354,8 @@ class BinaryNode(node.Node):
         """Delete child node(s)"""
         for child in self.children:
             if child is not None:
-                child.parent.__children.remove(child)  # type: ignore
+                child_idx = child.parent.__children.index(child)  # type: ignore
+                child.parent.__children[child_idx] = None  # type: ignore
                 child.__parent = None
 
     def __pre_assign_children(self: T, new_children: List[Optional[T]]) -> None:
